@@ -363,6 +363,15 @@ def op_fix_normals(run, ctx):
             m.fix_normals()
         elif route == "function:multibody":
             repair.fix_normals(m, multibody=True)
+        elif route == "process:validate":
+            # the documented way to get a repaired mesh: the same normal repair, reached through
+            # process(validate=True) (no duplicate / degenerate face, no duplicate vertex in these
+            # solids, so nothing but the winding may change)
+            m.process(validate=True)
+        elif route == "constructor:validate":
+            import trimesh
+
+            m = trimesh.Trimesh(vertices=before_V.copy(), faces=Fin.copy(), validate=True)
         else:
             repair.fix_normals(m, multibody=False)
     except Exception as e:  # noqa
@@ -965,12 +974,12 @@ def execute(run, case, nontrivial=True, digest=None):
 
 # ---------------------------------------------------------------------------- workload
 
-ROUTES_FN = ("method", "function:multibody", "function:single")
+ROUTES_FN = ("method", "function:multibody", "function:single", "process:validate", "constructor:validate")
 
 
 def fix_normals_cases(run, tag, V, F, flips_iter, single_body):
     for i, flip in flips_iter:
-        route = ROUTES_FN[i % 3]
+        route = ROUTES_FN[i % 5]
         if route == "function:single" and not single_body:
             route = "method"
         execute(run, make_case("fix_normals", tag, V, F, flip=flip, route=route, cached=bool((i // 3) % 2)),
